@@ -23,10 +23,22 @@ def build(ctx):
         return None
     # self.state
     self_locals = [p.local for p in b.vars.get("self", []) if not p.proj]
-    flags = {n: [p.local for p in b.vars.get(n, []) if not p.proj] for n in ("sync_done_sent", "sync_done_received")}
-    if not (self_locals and all(flags.values())):
-        ctx.ob("anchor", "locals self / sync_done_sent / sync_done_received", False,
-               "anchor-missing: %s %s" % (self_locals, flags))
+    # the two protocol flags are found by role, not by name: user-declared bool locals of the coroutine; `sent` is
+    # the one that is set to true behind a completed send of a Done message, `received` the other one
+    user_bools = sorted({p.local for pls in b.vars.values() for p in pls if not p.proj and b.locals[p.local]["ty"] == "bool"})
+    set_true = {}
+    for bb, k, pl, rv, st_ in b.assigns():
+        if not pl.proj and pl.local in user_bools and rv["k"] == "use" and "const" in rv["op"] and rv["op"]["const"].get("int") == 1:
+            set_true.setdefault(pl.local, []).append(bb)
+    done_sends = [c for c in sem_calls(b) if c.is_(SEND) and any(
+        rv.get("variant") == "Done" and (rv.get("adt") or "").endswith(MSG) for _, rv in origins(b, c.args[1]).aggs)]
+    sent = [l for l, bbs in set_true.items() if any(b.dominates(c.done_bb, bb) for c in done_sends for bb in bbs)]
+    others = [l for l in user_bools if l not in sent and l in set_true]
+    flags = {"sync_done_sent": sent[:1], "sync_done_received": others[:1]}
+    if not (self_locals and all(flags.values())) or len(sent) != 1:
+        ctx.ob("anchor", "self / the `Done sent` flag / the `Done received` flag of LogSync::run", False,
+               "anchor-missing: no unique bool local that is set after sending Done (candidates %s), other bool flags %s"
+               % (sent, others))
         return None
     tr.enum_places["state"] = (self_locals[0], "state", "log_sync::State")
     tr.variants["state"] = [v["name"] for v in st_adt["variants"]]
